@@ -825,8 +825,14 @@ class AutoSerialize:
                 is_all_numeric = False
 
             if is_all_numeric:
-                group.attrs["_sequence_encoding"] = "ndarray"
                 arr = np.asarray(value)
+                # mixing large ints with floats (or uint64 with negatives) promotes to float64 and
+                # rounds; such sequences are stored element-wise instead
+                is_all_numeric = arr.dtype != object and all(
+                    (a != a and v != v) or a == v for a, v in zip(arr.tolist(), value)
+                )
+            if is_all_numeric:
+                group.attrs["_sequence_encoding"] = "ndarray"
                 # Store in a single dataset named 'values'
                 self._write_ndarray(group, "values", arr, compressors)
             else:
